@@ -37,7 +37,7 @@ impl Prop for TextForms {
                 if u.coin(3, 4)? {
                     Case { kind, v: Inst::from_i(gen::instant_y1_9999(u)?), off: gen::offset_minutes(u)? }
                 } else {
-                    Case { kind, v: gen::inst(u, 2)?, off: gen::offset(u)? }
+                    Case { kind, v: gen::inst(u, 1)?, off: gen::offset(u)? }
                 }
             }
         })
@@ -46,8 +46,8 @@ impl Prop for TextForms {
         if !c.v.valid() || c.off.abs() > 86_399 || (c.kind == Kind::Date && c.off != 0) {
             return Verdict::Skip("malformed case");
         }
-        if c.kind == Kind::DateTime && (c.v.day < cal::MIN_DAY + 2 || c.v.day > cal::MAX_DAY - 2) {
-            return Verdict::Skip("within 2 days of a range end");
+        if c.kind == Kind::DateTime && (c.v.day < cal::MIN_DAY + 1 || c.v.day > cal::MAX_DAY - 1) {
+            return Verdict::Skip("on an outermost day of the range");
         }
         let f = fmt::local_fields(c.kind, c.v.day, c.v.ns, c.off);
         if f.year < 0 || f.year > 9999 {
